@@ -47,7 +47,7 @@ func c33GenInnerProgram(rt *rapid.T) []byte {
 		return rapid.SliceOfN(rapid.Byte(), 0, 20).Draw(rt, "rawblob") // mostly invalid
 	case 1:
 		code, k, jt, z := vpGenProgram(rt, false, 6)
-		b := vpAssemble(code, k, jt, z)
+		b := vpAssembleGen(rt, code, k, jt, z)
 		if len(b) > 1 {
 			b = b[:rapid.IntRange(1, len(b)-1).Draw(rt, "trunc")]
 		}
@@ -59,7 +59,7 @@ func c33GenInnerProgram(rt *rapid.T) []byte {
 		return vpAssemble(code, k, nil, 0)
 	default:
 		code, k, jt, z := vpGenProgram(rt, false, 8)
-		return vpAssemble(code, k, jt, z)
+		return vpAssembleGen(rt, code, k, jt, z)
 	}
 }
 
